@@ -1,6 +1,7 @@
 import Driver.Common
 import Model.Stats
 import Model.StatsReports
+import Model.StatsCompile
 open Lean Drv Stats
 
 /-! JSON-lines driver of the C08 model (Model/Stats.lean on `Float`). -/
@@ -165,7 +166,19 @@ def handle (j : Json) : Except String Json := do
       let raw ← parseRaw (← m.getObjVal? "raw")
       let rep ← parseRep (← m.getObjVal? "rep")
       pure (raw, rep)
-    let tbl := compileTable o ms
+    -- entries with an error path: `null` = the name of a file that cannot be read
+    let es ← match (j.getObjVal? "entries").toOption with
+      | none => pure (ms.map some)
+      | some e => do
+        let idx ← (← asArr e).toList.mapM fun x => match x with
+          | Json.null => pure (none : Option Nat)
+          | v => do pure (some (← v.getNat?))
+        idx.mapM fun i => match i with
+          | none => pure (none : Option (Raw Float × Rep Float))
+          | some n => match ms[n]? with
+            | some m => pure (some m)
+            | none => throw "bad-op"
+    let tbl := compileTableE o es
     pure (Json.mkObj [("rows", jArr (tbl.map fun (l, cells) =>
       jArr [jChars l.render, jArr (cells.map fun c => match c with
         | none => Json.null
